@@ -334,7 +334,15 @@ fn handle_run(req: &Request, resp: &mut Response) -> bool {
                         Value::ObjRange(g) => Box::new(g.as_root()),
                         Value::ObjFiber(g) => Box::new(g.as_root()),
                         Value::ObjBoundMethod(g) => Box::new(g.as_root()),
-                        _ => Box::new(()),
+                        Value::ObjBoundNative(g) => Box::new(g.as_root()),
+                        Value::ObjModule(g) => Box::new(g.as_root()),
+                        Value::ObjFunction(g) => Box::new(g.as_root()),
+                        Value::ObjNative(g) => Box::new(g.as_root()),
+                        Value::ObjStringIter(g) => Box::new(g.as_root()),
+                        Value::ObjTupleIter(g) => Box::new(g.as_root()),
+                        Value::ObjVecIter(g) => Box::new(g.as_root()),
+                        Value::ObjRangeIter(g) => Box::new(g.as_root()),
+                        Value::Boolean(_) | Value::Number(_) | Value::None => Box::new(()),
                     };
                     kept_values.insert(k.to_string(), (v, root));
                     Ok(())
